@@ -1,7 +1,8 @@
+import Chartparse.Proofs.TrackProofs
 import Chartparse.Proofs.StarPower
 /-! Property theorems of C05 (statements only; helper lemmas live in `Proofs/`). -/
 namespace Chartparse.Props.C05
-open Chartparse Chartparse.Inst
+open Chartparse Chartparse.Inst Chartparse.Tempo
 
 /-- one note: the answer is the first covering phrase, and the invariant is re-established -/
 theorem C05_one_note :
@@ -24,5 +25,20 @@ theorem C05 :
     (ts : List Nat) (hts : ts.Pairwise (· ≤ ·)),
     run sps ts 0 = some (ts.map fun t => firstCovering t sps) :=
   @Chartparse.Inst.C05
+
+/-- **C05 (track)**: the star-power data of the notes is the threaded cursor run over their ticks -/
+theorem C05_cursor :
+    ∀ {res evs sps gs prev b s ns} (h : NotesOf res evs sps gs prev b s ns),
+    run sps (ns.map (·.tick)) s = some (ns.map (·.sp)) :=
+  @Chartparse.Inst.notes_sp
+
+/-- **C05 (track, final form)**: phrases ordered by start tick, notes in non-decreasing tick order ⇒ every note carries
+    the index of the first phrase covering its tick (half-open), or nothing -/
+theorem C05_track :
+    ∀ (res : Int) (evs : List BpmEv) (sps : List Phrase) (gs : List (List NDatum)) (ns : List NoteEv)
+    (h : buildNotes res evs sps gs none 0 0 = .ok ns)
+    (hs : sps.Pairwise (fun a b => a.tick ≤ b.tick)) (hts : (ns.map (·.tick)).Pairwise (· ≤ ·)),
+    ns.map (·.sp) = ns.map (fun n => firstCovering n.tick sps) :=
+  @Chartparse.Inst.C05_track
 
 end Chartparse.Props.C05
